@@ -97,8 +97,13 @@ void writer(Ctx &c, const std::string &path, bool close_scenario, bool ro_sessio
         pause();
     } else {
         Observer ob; save_lines(c.path("snap.txt"), flatten(ob.file(g.f)));
+        // twin: a second session of this process on the same file, opened later and closed later, with an entity handle of its own kept alive;
+        // when both close() calls have returned the file must be released like after a single session
+        File twin_f; std::vector<Block> twin_handles; bool twin = bulk == false && r.chance(0.25);
+        if (twin) { try { twin_f = File::open(path, ro_session ? FileMode::ReadOnly : FileMode::ReadWrite); for (auto &tb : twin_f.blocks()) twin_handles.push_back(tb); rp.note("twin_sessions", 1); } catch (std::exception &) { twin = false; } }
         g_leftover = -1;
         g.f.close();
+        if (twin) { try { twin_f.close(); } catch (std::exception &e) { rp.viol("C11/close/twin-session-close-threw", std::string("close() of the second session on the file threw: ") + e.what()); } }
         rp.note("close_force_closed_ids", g_leftover);
         tick();   // boundary: right after close
         // release monitors inside the writer
